@@ -134,7 +134,7 @@ func (n *node) indexAgrees() bool {
 // doSync: `sync mine=<m> ks=[..] restart=0|1`: mine m blocks on the shared chain, index them uninterrupted on
 // the twin, with an injected failure at every k on the main side (optionally re-creating the main side's
 // managers after each failure, as a restarted process would), then let the main side catch up.
-func (lw *l2world) doSync(tr *vhlib.Trace, p vhlib.ParsedLine, pick func(n int) []int) {
+func (lw *l2world) doSync(tr *vhlib.Trace, p vhlib.ParsedLine, pick func(n int, kinds string) []int) {
 	w := lw.w
 	m := p.Int("mine")
 	if !lw.mine(m) {
@@ -149,7 +149,7 @@ func (lw *l2world) doSync(tr *vhlib.Trace, p vhlib.ParsedLine, pick func(n int) 
 	if _, ok := p.Args["ks"]; ok {
 		ks = ints(p.U64List("ks"))
 	} else if pick != nil {
-		ks = pick(tres.Points)
+		ks = pick(tres.Points, tres.Kinds)
 	}
 	restart := p.Int("restart") == 1
 	line := stripSweep(p.Raw) + fmt.Sprintf(" ks=%s crash=[]", vhlib.FmtList(ks))
@@ -216,7 +216,24 @@ func (g *gen) indexerHistory(rounds int) {
 	g.setup(g.addContractLine(true, false))
 	for i := 0; i < rounds; i++ {
 		line := fmt.Sprintf("op name=I.SyncDB mine=%d restart=%d", 1+r.Intn(4), r.Intn(2))
-		lw.doSync(g.tr, parseLine(line), func(n int) []int { return g.pickKs(n) })
+		lw.doSync(g.tr, parseLine(line), func(n int, kinds string) []int {
+			// besides the tier's sample: every transaction boundary of the sync (begin and commit calls)
+			set := map[int]bool{}
+			for _, k := range g.pickKs(n) {
+				set[k] = true
+			}
+			for i, c := range kinds {
+				if c == 'b' || c == 'c' {
+					set[i] = true
+				}
+			}
+			var ks []int
+			for k := range set {
+				ks = append(ks, k)
+			}
+			sort.Ints(ks)
+			return ks
+		})
 		if i == 1 {
 			g.setup(g.addContractLine(r.Chance(1, 2), false))
 		}
